@@ -7,12 +7,14 @@ through `cell.monitors`) and the specification's view (S: the ghost counts, "reg
 trainer is training", "reads land on the trainer's own monitors", "a layer step never raises").
 
 request lines
-  begin <c:n,c:n,…>            the layer's cells: index ↦ (connection, neuron)
+  begin <l:c:n,l:c:n,…> [T|F]  the cells: index ↦ (layer, connection, neuron); optional flag: the
+                               "other layer" test of the alias search repaired (T) or as in the code (F, default)
   trainer <kind>               kind 0 = STDP-like, 1 = MSTDPET-like
   register t n c v | delcell t n | addmon t n m <n0|n1|c0|c1|cm|bad> unique prepend tags | delmon t n m
-  ttrain t T|F | ltrain T|F | lstep | tstep t | clear t | collect t
+  ttrain t T|F | ltrain l T|F | lstep l | tstep t | clear t | collect t
 response
-  M <out> | hooks <k> | T<t> tr=… cells=n:c,… named=n.m:R|U:count,… mons=n.m,… own=n.m:T|F,… ; T<t'> …
+  M <out> | hooks <k0>/<k1>/… (per layer) | T<t> tr=… cells=n:c,… named=n.m:R|U:count:L<layer>,… mons=n.m,… own=n.m:T|F,… ; T<t'> …
+     (M: the layer the monitor is registered with; S: the layer of the cell it is listed for)
   || S <out> | hooks <k> | …
 -/
 open InfernoVerif.Lifecycle Proto
@@ -42,7 +44,8 @@ def dumpTrainer (s : State) (t : Nat) (spec : Bool) : String :=
     let m := s.mons e.2
     let reg := if spec then T.training else m.handle.isSome
     let cnt := if spec then m.expected else m.count
-    s!"{e.1.1}.{e.1.2}:{if reg then "R" else "U"}:{cnt}")
+    let lay := if spec then (match lookup T.cells e.1.1 with | some c => cellLayer s c | none => m.layer) else m.layer
+    s!"{e.1.1}.{e.1.2}:{if reg then "R" else "U"}:{cnt}:L{lay}")
   let mons := joinOr ((distinctMids T).map (firstEntry T))
   let own := joinOr (((namedMonitors T).filter fun e => !(s.mons e.2).reads.isEmpty).map fun e =>
     s!"{e.1.1}.{e.1.2}:{showB (if spec then true else readsOwn s e.2)}")
@@ -50,24 +53,35 @@ def dumpTrainer (s : State) (t : Nat) (spec : Bool) : String :=
 
 def aliveTrainers (s : State) : List Nat := (List.range s.nTrainers).filter fun t => (s.trainers t).alive
 
+def nLayers (s : State) : Nat := (s.topo.map (·.1 + 1)).foldl max 1
+
+/-- specification: per training trainer, one hook per distinct (monitor, layer of a cell listing it) -/
+def specHooks (s : State) (l : Nat) : Nat :=
+  ((aliveTrainers s).map fun t =>
+    let T := s.trainers t
+    if T.training then
+      (((namedMonitors T).filter fun e =>
+          (match lookup T.cells e.1.1 with | some c => cellLayer s c | none => (s.mons e.2).layer) == l).map (·.2)).eraseDups.length
+    else 0).foldl (· + ·) 0
+
 def dump (s : State) (spec : Bool) : String :=
-  let hooks := if spec then
-      ((aliveTrainers s).map fun t => if (s.trainers t).training then (distinctMids (s.trainers t)).length else 0).foldl (· + ·) 0
-    else s.post.length
+  let hooks := "/".intercalate ((List.range (nLayers s)).map fun l =>
+    toString (if spec then specHooks s l else (layerHooks s l).length))
   let ts := (aliveTrainers s).map fun t => dumpTrainer s t spec
   s!"hooks {hooks} | " ++ (if ts.isEmpty then "-" else " ; ".intercalate ts)
 
 /-- the specification's answer to an operation, given the model's -/
 def specOut (s : State) (op : Op) (mo : Out) : Out :=
   match op with
-  | .layerStep => .ok                                  -- a layer step never raises
+  | .layerStep _ => .ok                                -- a layer step never raises
   | .trainerStep t =>
     let T := s.trainers t
     if !T.alive then .noref
-    else if !(T.training && s.layerTraining) then .ok
+    else if !T.training then .ok
     else
-      -- complete data: every required monitor exists and has (by the ghost count) an observation
-      let okc := T.cells.all fun e => (required T.kind).all fun r =>
+      -- complete data: every required monitor of a cell whose layer trains exists and has (by the
+      -- ghost count) an observation
+      let okc := T.cells.all fun e => !s.layerTraining (cellLayer s e.2) || (required T.kind).all fun r =>
         match (lookup T.groups e.1).bind (lookup · r) with
         | some mid => decide ((s.mons mid).expected > 0)
         | none => false
@@ -88,16 +102,16 @@ def parseOp? (toks : List String) : Option Op :=
       some (.addMonitor (← parseNat? t) (← parseNat? n) (← parseNat? m) (← parseSel? sel) (← parseBool? u) (← parseBool? p) (← parseNat? tg))
   | ["delmon", t, n, m] => do some (.delMonitor (← parseNat? t) (← parseNat? n) (← parseNat? m))
   | ["ttrain", t, b] => do some (.trainerTrain (← parseNat? t) (← parseBool? b))
-  | ["ltrain", b] => do some (.layerTrain (← parseBool? b))
-  | ["lstep"] => some .layerStep
+  | ["ltrain", l, b] => do some (.layerTrain (← parseNat? l) (← parseBool? b))
+  | ["lstep", l] => do some (.layerStep (← parseNat? l))
   | ["tstep", t] => do some (.trainerStep (← parseNat? t))
   | ["clear", t] => do some (.clear (← parseNat? t))
   | ["collect", t] => do some (.collect (← parseNat? t))
   | _ => none
 
-def parseTopo? (s : String) : Option (List (Nat × Nat)) :=
+def parseTopo? (s : String) : Option (List (Nat × Nat × Nat)) :=
   (s.splitOn ",").mapM fun p => match p.splitOn ":" with
-    | [c, n] => do some (← parseNat? c, ← parseNat? n)
+    | [l, c, n] => do some (← parseNat? l, ← parseNat? c, ← parseNat? n)
     | _ => none
 
 /-- The model keeps monitors and trainers as functions (proof friendly); every operation wraps
@@ -118,6 +132,10 @@ def dstep (st : State) (line : String) : State × String :=
     match parseTopo? topo with
     | some tp => (init tp, "ok")
     | none => (st, "bad-op")
+  | ["begin", topo, f] =>
+    match parseTopo? topo, parseBool? f with
+    | some tp, some f => (init tp f, "ok")
+    | _, _ => (st, "bad-op")
   | _ =>
     match parseOp? toks with
     | some op =>
